@@ -3,6 +3,7 @@ package c07
 
 import (
 	"context"
+	"encoding/json"
 	"fmt"
 	"strings"
 	"sync"
@@ -13,6 +14,7 @@ import (
 	"pgregory.net/rapid"
 
 	"tunnox-core/internal/core/storage/hybrid"
+	"tunnox-core/internal/cloud/models"
 	"tunnox-core/internal/core/storage/memory"
 	"tunnox-core/internal/packet"
 	"tunnox-core/internal/protocol/session"
@@ -46,6 +48,7 @@ type slot struct {
 	authed     int64 // identity per the model (0 none)
 	loginSeq   int   // sequence number of its last successful CONTROL login
 	tunnelOnly bool  // its identity comes from a tunnel-type handshake: authenticated, never a control channel
+	handedOver bool  // its TunnelOpen was accepted: the session layer took it out of the control registry (Unregister) and runs it as a tunnel end
 }
 
 type world struct {
@@ -56,6 +59,8 @@ type world struct {
 	seq     int
 	cfg     Case
 	outage  *vkit.OutageStore
+	mapID   string // a port mapping client 0 (listen) -> client 1 (target)
+	tunnels int
 }
 
 func newWorld(c Case) (*world, error) {
@@ -81,6 +86,12 @@ func newWorld(c Case) (*world, error) {
 		}
 		w.ids[i], w.secrets[i] = cl.ID, cl.SecretKeyPlaintext
 	}
+	mp, err := srv.Cloud.CreatePortMapping(&models.PortMapping{ListenClientID: w.ids[0], TargetClientID: w.ids[1], Protocol: models.ProtocolTCP,
+		SourcePort: 17788, TargetHost: "127.0.0.1", TargetPort: 3306, SecretKey: "c07-mapping-secret-0123456789abcdef", Status: models.MappingStatusActive})
+	if err != nil {
+		return nil, err
+	}
+	w.mapID = mp.ID
 	return w, nil
 }
 
@@ -112,12 +123,22 @@ func (w *world) adapterRole() {
 
 func (w *world) step(a Action) (*fail, string) {
 	tag := a.Kind
-	pick := func() *slot {
-		l := w.live()
+	pickFrom := func(l []*slot) *slot {
 		if len(l) == 0 {
 			return nil
 		}
 		return l[a.Conn%len(l)]
+	}
+	pick := func() *slot { return pickFrom(w.live()) }
+	// connections that still speak the packet protocol (a handed-over tunnel connection carries raw bytes)
+	pickCtl := func() *slot {
+		var l []*slot
+		for _, s := range w.live() {
+			if !s.handedOver {
+				l = append(l, s)
+			}
+		}
+		return pickFrom(l)
 	}
 	switch a.Kind {
 	case "accept":
@@ -134,13 +155,12 @@ func (w *world) step(a Action) (*fail, string) {
 		}
 		w.slots = append(w.slots, &slot{cl: cl})
 	case "login", "phase1":
-		s := pick()
+		s := pickCtl()
 		if s == nil {
 			return nil, tag + ":skipped"
 		}
 		ci := a.Client % nClients
 		s.handshook = true
-		s.cl.Drain()
 		if a.Kind == "phase1" {
 			resp, _, _ := s.cl.Handshake(&packet.HandshakeRequest{ClientID: w.ids[ci], Version: "2.0", Protocol: "tcp", ConnectionType: "control"})
 			// any accepted control-type handshake message on a connection that already proved an
@@ -177,13 +197,12 @@ func (w *world) step(a Action) (*fail, string) {
 	case "login_tunnel":
 		// a data connection: tunnel-type handshake (authenticated, registered, but never installed as
 		// the client's control channel); only on connections that carry no identity yet
-		s := pick()
+		s := pickCtl()
 		if s == nil || s.authed != 0 {
 			return nil, tag + ":skipped"
 		}
 		ci := a.Client % nClients
 		s.handshook = true
-		s.cl.Drain()
 		resp, err := s.cl.Login(w.ids[ci], w.secrets[ci], "tunnel")
 		if err == nil && resp != nil && resp.Success {
 			s.authed = w.ids[ci]
@@ -192,6 +211,68 @@ func (w *world) step(a Action) (*fail, string) {
 		} else if !s.cl.Far.IsClosed() {
 			return &fail{"C07/harness/login-failed", fmt.Sprintf("tunnel-type login of client %d: %+v %v", ci, resp, err)}, tag
 		}
+	case "login_bad":
+		// phase one for a client (a challenge is issued), then a phase two with a response computed from
+		// the wrong secret: refused, and the connection's identity must be what it was
+		s := pickCtl()
+		if s == nil {
+			return nil, tag + ":skipped"
+		}
+		ci := a.Client % nClients
+		s.handshook = true
+		if s.authed != 0 && s.authed != w.ids[ci] {
+			tag = "login_bad:on-connection-of-other-client"
+		}
+		r1, _, _ := s.cl.Handshake(&packet.HandshakeRequest{ClientID: w.ids[ci], Version: "2.0", Protocol: "tcp", ConnectionType: "control"})
+		if r1 == nil || !r1.NeedResponse {
+			break
+		}
+		if s.authed != 0 {
+			w.seq++
+			s.loginSeq = w.seq
+			s.tunnelOnly = false
+		}
+		r2, _, _ := s.cl.Handshake(&packet.HandshakeRequest{ClientID: w.ids[ci], Version: "2.0", Protocol: "tcp", ConnectionType: "control",
+			ChallengeResponse: miniserver.ComputeResponse("not-the-secret-of-this-client", r1.Challenge)})
+		if r2 != nil && r2.Success {
+			return &fail{"C07/login-with-wrong-secret-accepted", fmt.Sprintf("client %d on %s", ci, s.cl.ConnID)}, tag
+		}
+	case "tunnel_open":
+		// a data connection of the mapping's listen client opens a tunnel: once accepted, the session
+		// layer hands the connection over to the tunnel machinery (it leaves the control registry)
+		s := pick()
+		if s == nil || !s.tunnelOnly || s.handedOver || s.authed != w.ids[0] {
+			return nil, tag + ":skipped"
+		}
+		w.tunnels++
+		tid := fmt.Sprintf("c07-tunnel-%d", w.tunnels)
+		b, _ := json.Marshal(&packet.TunnelOpenRequest{MappingID: w.mapID, TunnelID: tid})
+		go s.cl.Push(&packet.TransferPacket{PacketType: packet.TunnelOpen, TunnelID: tid, Payload: b})
+		deadline := time.Now().Add(5 * time.Second)
+		accepted := false
+		for time.Now().Before(deadline) {
+			p, err := s.cl.Recv(time.Until(deadline))
+			if err != nil {
+				break
+			}
+			if p.PacketType&0x3F == packet.TunnelOpenAck {
+				var ack packet.TunnelOpenAckResponse
+				accepted = json.Unmarshal(p.Payload, &ack) == nil && ack.Success
+				break
+			}
+		}
+		if !accepted {
+			if s.cl.Far.IsClosed() {
+				tag += ":closed-by-server"
+				break
+			}
+			return &fail{"C07/harness/tunnel-open-not-accepted", s.cl.ConnID}, tag
+		}
+		// the hand-over happens right after the acknowledgement is written
+		for i := 0; i < 2000 && w.srv.SM.GetControlConnection(s.cl.ConnID) != nil; i++ {
+			time.Sleep(time.Millisecond)
+		}
+		s.handedOver = true
 	case "kick":
 		ci := a.Client % nClients
 		except := "none"
@@ -200,7 +281,7 @@ func (w *world) step(a Action) (*fail, string) {
 		}
 		w.srv.SM.KickOldControlConnection(w.ids[ci], except)
 	case "heartbeat":
-		s := pick()
+		s := pickCtl()
 		if s == nil {
 			return nil, tag + ":skipped"
 		}
@@ -209,7 +290,7 @@ func (w *world) step(a Action) (*fail, string) {
 		// leave the masked connections idle for > timeout, refresh the others, then sweep
 		time.Sleep(6 * time.Millisecond)
 		for i, s := range w.live() {
-			if a.Mask&(1<<uint(i)) == 0 {
+			if a.Mask&(1<<uint(i)) == 0 && !s.handedOver {
 				s.cl.Push(&packet.TransferPacket{PacketType: packet.Heartbeat})
 			}
 		}
@@ -321,15 +402,24 @@ func (w *world) invariants() *fail {
 		}
 	}
 	// counts
-	liveN, ctrlN := 0, 0
+	liveN, ctrlN, handed := 0, 0, 0
 	for _, s := range w.live() {
 		liveN++
-		if s.handshook && sm.GetControlConnection(s.cl.ConnID) != nil {
+		if s.handedOver {
+			handed++ // moved from the connection map to the tunnel machinery at a moment the harness does not observe
+		}
+		if s.handshook && !s.handedOver && sm.GetControlConnection(s.cl.ConnID) != nil {
 			ctrlN++
 		}
+		if s.handedOver && sm.GetControlConnection(s.cl.ConnID) != nil {
+			return &fail{"C07/handed-over-tunnel-connection-still-in-control-registry", s.cl.ConnID}
+		}
+	}
+	if n := len(reg.List()); reg.Count() != n {
+		return &fail{"C07/registry-count-differs-from-registry-content", fmt.Sprintf("Count() = %d, %d connections listed", reg.Count(), n)}
 	}
 	st := sm.GetConnectionStats()
-	if st.TotalConnections != liveN {
+	if st.TotalConnections > liveN || st.TotalConnections < liveN-handed {
 		return &fail{"C07/total-connection-count-wrong", fmt.Sprintf("stats say %d, %d connections are open", st.TotalConnections, liveN)}
 	}
 	if st.ControlConnections != ctrlN || reg.Count() != ctrlN {
@@ -343,7 +433,7 @@ func (w *world) invariants() *fail {
 	}
 	// a live connection that the model says is registered must not have been silently dropped
 	for _, s := range w.live() {
-		if s.handshook && sm.GetControlConnection(s.cl.ConnID) == nil {
+		if s.handshook && !s.handedOver && sm.GetControlConnection(s.cl.ConnID) == nil {
 			return &fail{"C07/live-connection-dropped-from-registry-with-open-transport", s.cl.ConnID}
 		}
 	}
@@ -363,11 +453,11 @@ func runCase(t vkit.TB, c Case) {
 		tags = append(tags, tag)
 		vkit.Class("step:" + tag)
 		if f != nil {
-			vkit.Violation(t, f.key, fmt.Sprintf("step %d (%s): %s", n, tag, f.detail), c)
+			vkit.Violation(t, f.key, fmt.Sprintf("step %d (%s): %s; steps so far: %s", n, tag, f.detail, strings.Join(tags, ",")), c)
 			vkit.Case("known", false, "")
 			return
 		}
-		if strings.HasPrefix(tag, "login:") || tag == "login_tunnel" {
+		if strings.HasPrefix(tag, "login:") || tag == "login_tunnel" || strings.HasPrefix(tag, "login_bad") || tag == "tunnel_open" {
 			interesting = true
 		}
 	}
@@ -396,7 +486,7 @@ func genCase(t *rapid.T) Case {
 	n := rapid.IntRange(2, vkit.Pick(22, 40)).Draw(t, "n")
 	c.Actions = append(c.Actions, Action{Kind: "accept"}, Action{Kind: "accept"})
 	for i := 0; i < n; i++ {
-		k := rapid.SampledFrom([]string{"accept", "accept", "login", "login", "login", "login", "login_tunnel", "phase1", "kick", "heartbeat", "sweep", "close_server", "close_peer", "close_server_outage", "close_peer_outage"}).Draw(t, "kind")
+		k := rapid.SampledFrom([]string{"accept", "accept", "login", "login", "login", "login", "login_tunnel", "login_tunnel", "tunnel_open", "tunnel_open", "login_bad", "login_bad", "phase1", "kick", "heartbeat", "sweep", "close_server", "close_peer", "close_server_outage", "close_peer_outage"}).Draw(t, "kind")
 		a := Action{Kind: k, Conn: rapid.IntRange(0, 7).Draw(t, "conn"), Client: rapid.IntRange(0, nClients-1).Draw(t, "client")}
 		if k == "sweep" || k == "kick" {
 			a.Mask = rapid.IntRange(0, 31).Draw(t, "mask")
@@ -565,9 +655,102 @@ func TestReplay(t *testing.T) {
 	if path == "" {
 		t.Skip("no VERIF_REPLAY")
 	}
+	var rr struct {
+		RemoveRace string `json:"remove_race"`
+	}
+	vkit.LoadReplay(path, &rr)
+	if rr.RemoveRace != "" { // schedule-dependent: the replay unit is the search itself
+		TestRemoveRace(t)
+		return
+	}
 	var c Case
 	if _, err := vkit.LoadReplay(path, &c); err != nil {
 		t.Fatal(err)
 	}
 	runCase(t, c)
+}
+
+// TestRemoveRace: lookups racing the removal of a connection. A lookup that STARTS after the
+// connection's transport has been closed must not return that connection (closing and detaching
+// are one step for every observer); nor may a racing lookup ever return a connection of another
+// client. The closer is, per round, the server (CloseConnection), a kick, or the duplicate login of
+// the same client on another connection.
+func TestRemoveRace(t *testing.T) {
+	rounds := vkit.PerShard(vkit.Pick(1600, 40000))
+	vkit.Check(t, rounds*vkit.NShards(), rounds*vkit.NShards(), func(t *rapid.T) {
+		how := rapid.SampledFrom([]string{"close", "kick", "duplicate-login"}).Draw(t, "how")
+		nLook := rapid.IntRange(1, 3).Draw(t, "lookers")
+		w, err := newWorld(Case{})
+		if err != nil {
+			t.Fatalf("harness: %v", err)
+		}
+		defer w.srv.Close()
+		w.step(Action{Kind: "accept"})
+		w.step(Action{Kind: "accept"})
+		x, y := w.slots[0], w.slots[1]
+		if r, err := x.cl.Login(w.ids[0], w.secrets[0], "control"); err != nil || r == nil || !r.Success {
+			t.Fatalf("HARNESS-ERROR login: %+v %v", r, err)
+		}
+		x.handshook, x.authed = true, w.ids[0]
+		sm := w.srv.SM
+		var start atomic.Bool
+		var done atomic.Bool
+		var wg sync.WaitGroup
+		var bad atomic.Value
+		for i := 0; i < nLook; i++ {
+			wg.Add(1)
+			go func() {
+				defer wg.Done()
+				for !start.Load() {
+				}
+				for n := 0; !done.Load() || n < 50; n++ {
+					closedBefore := x.cl.Far.IsClosed()
+					cc := sm.GetControlConnectionByClientID(w.ids[0])
+					if cc == nil {
+						if done.Load() {
+							n++
+						}
+						continue
+					}
+					if cc.GetClientID() != w.ids[0] || !cc.IsAuthenticated() {
+						bad.Store(fmt.Sprintf("C07/lookup-returns-foreign-connection|lookup of %d gave %s (client %d, authenticated %v)", w.ids[0], cc.GetConnID(), cc.GetClientID(), cc.IsAuthenticated()))
+						return
+					}
+					// CloseConnection closes the transport before it deregisters (the closing operation is still
+					// in progress then); the registry's own removals (duplicate login, kick) are one step
+					if closedBefore && how != "close" && cc.GetConnID() == x.cl.ConnID {
+						bad.Store("C07/lookup-returns-closed-connection|the lookup started after the transport of " + x.cl.ConnID + " was closed and still returned it (" + how + ")")
+						return
+					}
+				}
+			}()
+		}
+		start.Store(true)
+		switch how {
+		case "close":
+			sm.CloseConnection(x.cl.ConnID)
+		case "kick":
+			sm.KickOldControlConnection(w.ids[0], "none")
+		case "duplicate-login":
+			y.cl.Login(w.ids[0], w.secrets[0], "control")
+			y.handshook, y.authed = true, w.ids[0]
+		}
+		done.Store(true)
+		// once the removing operation has returned, no lookup may return the removed connection
+		if cc := sm.GetControlConnectionByClientID(w.ids[0]); cc != nil && cc.GetConnID() == x.cl.ConnID {
+			bad.Store("C07/lookup-returns-closed-connection|" + how + " of " + x.cl.ConnID + " has returned and a lookup still returns it")
+		}
+		wg.Wait()
+		if b := bad.Load(); b != nil {
+			parts := strings.SplitN(b.(string), "|", 2)
+			vkit.Violation(t, parts[0]+"/racing-removal", parts[1], map[string]any{"remove_race": how, "lookers": nLook})
+			return
+		}
+		w.adapterRole()
+		if f := w.invariantsConcurrent(); f != nil {
+			vkit.Violation(t, f.key+"/after-racing-removal", f.detail, map[string]any{"remove_race": how, "lookers": nLook})
+			return
+		}
+		vkit.Case("remove-race/"+how, true, fmt.Sprint(how, nLook))
+	})
 }
